@@ -371,6 +371,10 @@ func runC01() {
 		// results of the untyped compile per environment: a typed compile of an accepted expression must not FAIL for a
 		// type reason where the untyped one returns a value (the language definition assigns that value)
 		untypedOK := map[int]bool{}
+		// results of the typed, UNOPTIMIZED compile per environment: the optimized program has to answer alike (what the
+		// optimizer may change is C02's subject; a disagreement outside the recorded optimizer findings is a wrong value here too)
+		typedRun := map[int]coreRun{}
+		var typedFeat c02Feat
 		for _, m := range modes {
 			tree, prog, _, err := pipeline(src, m.options(envs[0]))
 			if err != nil {
@@ -395,6 +399,23 @@ func runC01() {
 					rep.hist("run ok")
 				} else {
 					rep.hist("run fails " + cls)
+				}
+				if m.Name == modeTyped.Name {
+					if len(typedRun) == 0 {
+						typedFeat = c02Features(tree.Node, nil)
+					}
+					typedRun[ei] = r
+				}
+				if t0, ok := typedRun[ei]; ok && m.Name == modeTypedOpt.Name {
+					same := (t0.err != nil && r.err != nil) || (t0.err == nil && r.err == nil && simEqual(t0.out, r.out) && simLog(t0.log, r.log, map[string]bool{}))
+					if !same {
+						if key := c02Classify(typedFeat, t0, r, map[string]bool{}); key == "C02-mismatch" {
+							rep.fail(Failure{Key: "C01-optimized-differs", What: "the optimized compile of an expression does not answer like the unoptimized one (outside the recorded optimizer findings)",
+								Input: map[string]interface{}{"src": src, "env": ei}, Want: "unoptimized: " + c02Show(t0), Got: "optimized: " + c02Show(r)})
+						} else {
+							rep.hist("optimized run differs: recorded optimizer finding " + key)
+						}
+					}
 				}
 				if m.Name == modeUntyped.Name {
 					untypedOK[ei] = r.err == nil
